@@ -52,6 +52,7 @@ func famECDSAHonest(k *mon.Case) {
 	if !bytes.Equal(priv.Serialize(), refec.Bytes32(d)) {
 		k.Failf("keys:PrivateKey.Serialize:roundtrip", "d=%x got %x", d, priv.Serialize())
 	}
+	g := (&inputGuard{}).priv("private_key", priv).pub("public_key", pub).bytes("hash", msg)
 	sig := ecdsa.Sign(priv, msg)
 	sr, ss := sig.R(), sig.S()
 	ri, si := intFromScalar(&sr), intFromScalar(&ss)
@@ -84,9 +85,14 @@ func famECDSAHonest(k *mon.Case) {
 		k.Failf("ecdsa:Serialize:not-canonical-der", "r=%x s=%x got %x want %x", ri, si, ser, refec.EncodeDER(ri, si))
 	}
 	for name, parse := range map[string]func([]byte) (*ecdsa.Signature, error){"ParseDERSignature": ecdsa.ParseDERSignature, "ParseSignature": ecdsa.ParseSignature} {
-		p, err := parse(ser)
+		buf := append([]byte{}, ser...)
+		p, err := parse(buf)
 		if err != nil || !p.IsEqual(sig) {
 			k.Failf("ecdsa:"+name+":roundtrip", "ser=%x err=%v", ser, err)
+		} else if !bytes.Equal(buf, ser) {
+			k.Failf("aliasing:ecdsa."+name+":caller-input-modified:signature", "before=%x after=%x", ser, buf)
+		} else if scramble(buf); !p.IsEqual(sig) {
+			k.Failf("aliasing:ecdsa."+name+":result-retains-caller-slice", "ser=%x", ser)
 		}
 	}
 	if err := ecdsa.VerifyLowS(ser); err != nil {
@@ -115,6 +121,10 @@ func famECDSAHonest(k *mon.Case) {
 	} else if len(cs) == 65 && !refec.ECDSAVerify(refP, msg, refec.Int(cs[1:33]), refec.Int(cs[33:])) {
 		k.Failf("ecdsa:SignCompact:signature-fails-ecdsa-equation", "d=%x msg=%x compact=%x", d, msg, cs)
 	}
+	if !bytes.Equal(sig.Serialize(), ser) || !sig.Verify(msg, pub) {
+		k.Failf("ecdsa:Signature:not-idempotent", "second Serialize/Verify of the same signature object differs: ser=%x", ser)
+	}
+	g.check(k, "ecdsa.Sign/Verify/SignCompact")
 	k.Count("ecdsa.sign", 1)
 	if edge {
 		k.Count("ecdsa.sign.edgekey", 1)
@@ -206,7 +216,13 @@ func famECDSAAlgebraic(k *mon.Case) {
 		want := refec.ECDSAVerify(v.P, v.msg, v.r, v.s)
 		pub := pubFromPoint(v.P)
 		// route 1: signature object built from scalars (admits zero)
-		got := ecdsa.NewSignature(scalarFromInt(v.r), scalarFromInt(v.s)).Verify(v.msg, pub)
+		sigObj := ecdsa.NewSignature(scalarFromInt(v.r), scalarFromInt(v.s))
+		g := (&inputGuard{}).pub("public_key", pub).bytes("hash", v.msg)
+		got := sigObj.Verify(v.msg, pub)
+		if again := sigObj.Verify(v.msg, pub); again != got {
+			k.Failf("ecdsa:Verify:not-idempotent", "pub=%x msg=%x r=%x s=%x first=%v second=%v", v.P.Uncompressed(), v.msg, v.r, v.s, got, again)
+		}
+		g.check(k, "ecdsa.Verify")
 		if got != want {
 			k.Failf(fmt.Sprintf("ecdsa:Verify:%s:btcd-%s-oracle-%s", v.name, b2s(got), b2s(want)),
 				"pub=%x msg=%x r=%x s=%x", v.P.Uncompressed(), v.msg, v.r, v.s)
